@@ -35,10 +35,6 @@ PEERS = [(False, bytes([10, 1, 1, 1]), 1111), (False, bytes([10, 1, 1, 2]), 2222
          (True, bytes.fromhex("20010db8000000000000000000000002"), 3333), (False, bytes([10, 1, 1, 1]), 1112)]
 COOKIE = bytes.fromhex("2112a442")
 
-KF_CHANLEN = ("udp-turn.c nice_udp_turn_socket_parse_recv: on a bound channel the ChannelData length field is trusted: a packet shorter "
-              "than 4 + length (or shorter than 4 bytes) makes memmove read past the received packet")
-KF_EMPTY = ("agent.c compact_message via udp-turn.c socket_send_message: a zero-length payload sent as Send indication does pointer "
-            "arithmetic and memcpy on the NULL returned by g_malloc (0) (undefined behaviour, UBSan)")
 
 
 def hx(b):
@@ -112,7 +108,7 @@ def gen_session(rng, tier):
             ln = rng.choice([1, 2, 3, 5, 16, 100, 1200]) if rng.random() < .97 else rng.choice([20000, 64999, 65000])   # property range 0..65000
             bufs = []
             for j in range(k):
-                bufs.append(rng.randbytes(max(1 if j == 0 else 0, ln // k)))
+                bufs.append(rng.randbytes(ln // k if rng.random() < .95 else 0))
             L.append(f"sock turn send {peer} " + ",".join(hx(b) for b in bufs))
             cp_sent += 1   # at most one new CreatePermission
         elif r < 0.52:
@@ -150,7 +146,7 @@ def gen_session(rng, tier):
 
 
 def hostile_session(rng):
-    """ChannelData on a bound channel with a length field that lies, or a runt packet: recorded finding territory"""
+    """ChannelData on a bound channel with a length field that lies, or a runt packet (fixed 55a791e)"""
     L = ["sock turn new rfc5766 0", "sock turn setpeer 0", "sock turn reply cb 0 e401", "sock turn reply cb 1 ok"]
     kind = rng.choice(["long", "runt", "exact"])
     if kind == "long":
@@ -273,28 +269,15 @@ def run(tier, seed):
     nsess = 1500 if tier == "quick" else 20000
     for _ in range(nsess):
         S.append(gen_session(rng, tier))
+    H = [hostile_session(rng) for _ in range(100 if tier == "quick" else 1000)]   # lying length fields, runts: must be harmless now
+    S += [L for (L, kind) in H]
     io, mo, errs = sockchk.run_both(exe, S, model=os.path.exists(vlib.model_exe()))
     nval, distinct, ops = 0, set(), {}
-    khits_main = []
     for i, s in enumerate(S):
         if io[i] is None:
             o1, rc1, er1 = errs.get(i, ([], 0, ""))
-            # which operation died?  (o1 = output of `reset` + the operations that completed)
-            k = len(o1) - 1
-            op = s[k] if 0 <= k < len(s) else ""
-            w = op.split()
-            prev = o1[-1] if o1 else ""
-            bound = re.search(r"ch=\[(.*?)\]", prev)
-            bound = [int(x.split(":")[1], 16) for x in bound.group(1).split(",") if x] if bound else []
-            lying = False
-            if len(w) >= 4 and w[2] in ("dgram", "from") and bound:
-                raw = b"" if w[-1] == "-" else bytes.fromhex(w[-1])
-                lying = len(raw) < 4 or (int.from_bytes(raw[0:2], "big") in bound and len(raw) < 4 + int.from_bytes(raw[2:4], "big"))
-            if lying and "udp-turn.c" in er1 and "heap-buffer-overflow" in er1 and KF_CHANLEN in known_texts:
-                khits_main.append(op)
-            else:
-                ofail.append({"session": [l[:400] for l in s], "why": "implementation crashed / aborted (sanitizer report or signal)",
-                              "crashed_at": op[:300], "stderr": er1[-1500:]})
+            ofail.append({"session": [l[:400] for l in s], "why": "implementation crashed / aborted (sanitizer report or signal)",
+                          "impl_out": o1[-2:], "stderr": er1[-1500:]})
             continue
         if mo[i] is not None and mo[i] != io[i]:
             k = 0
@@ -312,33 +295,7 @@ def run(tier, seed):
             ops[l.split()[2]] = ops.get(l.split()[2], 0) + 1
             if " down [" in o and not o.split(" down [")[1].startswith("]") or (" up [" in o and not o.split(" up [")[1].startswith("]")):
                 distinct.add(hash((l[:200], o[:200])))
-    # ---- recorded findings: sessions that abort the sanitised harness
-    khits = {}
-    if khits_main:
-        khits[KF_CHANLEN] = list(khits_main)
-    H = [hostile_session(rng) for _ in range(60 if tier == "quick" else 600)]
-    for (L, kind) in H:
-        o, rc, er = vlib.run_lines(exe, ["reset"] + L, timeout=120)
-        if len(o) == len(L) + 1:
-            continue
-        raw = bytes.fromhex(L[-1].split()[3])
-        lies = len(raw) < 4 or len(raw) < 4 + int.from_bytes(raw[2:4], "big")
-        if lies and "udp-turn.c" in er and ("heap-buffer-overflow" in er) and KF_CHANLEN in known_texts:
-            khits.setdefault(KF_CHANLEN, []).append(L[-1])
-        else:
-            ofail.append({"session": L, "why": "implementation aborted on relay traffic", "stderr": er[-1500:]})
-    p = os.path.join(vlib.ROOT, "corpus", "C16", "abort", "send_empty_indication.ops")
-    if os.path.exists(p):
-        L = [l.strip() for l in open(p) if l.strip() and not l.startswith("#")]
-        o, rc, er = vlib.run_lines(exe, L, timeout=120)
-        if len(o) != len(L):
-            if "agent.c" in er and "null pointer" in er and KF_EMPTY in known_texts:
-                khits.setdefault(KF_EMPTY, []).append(L[-1])
-            else:
-                ofail.append({"session": L, "why": "implementation aborted sending an empty payload", "stderr": er[-1500:]})
-    for text, ex in khits.items():
-        chk.known(f"{text} [{len(ex)} run(s), e.g. `{ex[0][:120]}`]")
-    chk.cov["evaluations"] = len(S) + len(H)
+    chk.cov["evaluations"] = len(S)
     chk.cov["traces_validated_against_impl"] = nval
     chk.cov["distinct_nontrivial"] = len(distinct)
     chk.cov["rule"] = ("a session = one TURN socket life (sends, channel binds, request answers, relay traffic); non-trivial = distinct "
